@@ -360,7 +360,6 @@ def run_check(pid, tier, seed):
             proof = proof_layer(mod)
         finally:
             lock.un()
-        lock.sh()
         proof_ok = proof["ok"] and not proof["forbidden"] and proof.get("print_assumptions_ok", False)
         corr_vo = os.path.join(COQ, mod.CORR.replace(".", "/") + ".vo")
         corr_built = os.path.exists(corr_vo) and (proof["ok"] or make([mod.CORR.replace(".", "/") + ".vo"])[0] == 0)
